@@ -177,7 +177,8 @@ class Generator(AbstractODSGenerator):
         for entry in chain(in_transaction_set, out_transaction_set, intra_transaction_set):  # type: ignore
             years_2_transaction_sets.setdefault(entry.timestamp.year, []).append(entry)
 
-        for year, transaction_set in years_2_transaction_sets.items():
+        previous_year: int = 0
+        for year, transaction_set in sorted(years_2_transaction_sets.items()):
             # Sort the transactions by timestamp and generate sheet by year
             previous_year_row_offset = self.__generate_asset_year(
                 asset=asset,
@@ -185,7 +186,9 @@ class Generator(AbstractODSGenerator):
                 transaction_list=sorted(transaction_set, key=lambda x: x.timestamp),
                 output_file=output_file,
                 previous_year_row_offset=previous_year_row_offset,
+                previous_year=previous_year,
             )
+            previous_year = year
 
             summary_sheet: Any = output_file.sheets[self.get_summary_sheet_name(year)]
 
@@ -280,7 +283,9 @@ class Generator(AbstractODSGenerator):
             donated_amount_in_yen=donated_amount_in_yen,
         )
 
-    def __generate_asset_year(self, asset: str, year: int, transaction_list: List[AbstractTransaction], output_file: Any, previous_year_row_offset: int) -> int:
+    def __generate_asset_year(
+        self, asset: str, year: int, transaction_list: List[AbstractTransaction], output_file: Any, previous_year_row_offset: int, previous_year: int
+    ) -> int:
         asset_year_sheet: Any = output_file.sheets[self.ASSET_TEMPLATE_SHEET].copy(newname=self.get_tax_sheet_name(asset, year))
         output_file.sheets += asset_year_sheet
 
@@ -347,7 +352,7 @@ class Generator(AbstractODSGenerator):
         previous_year_crypto_cell: Optional[str] = None
         previous_year_yen_cell: Optional[str] = None
         if previous_year_row_offset != 0:
-            previous_year_sheet_name: str = self.get_tax_sheet_name(asset, year - 1)
+            previous_year_sheet_name: str = self.get_tax_sheet_name(asset, previous_year)
             previous_year_crypto_cell = f"='{previous_year_sheet_name}'.I{previous_year_row_offset}"
             previous_year_yen_cell = f"='{previous_year_sheet_name}'.I{previous_year_row_offset+1}"
 
